@@ -144,6 +144,12 @@ Theorem om_refines_js : forall (V : Type) (ops : list (@op Hash.wfkey V)),
   snd (run (sstep Hash.wf_same Hash.wf_norm) sinit ops).
 Proof. exact (Hash.om_refines_js hashTrue hashFalse hashNull hashUndef mh ptr_sym ptr_obj). Qed.
 
+(* 8'. the same statement over plain JS values: every history whose keys are all well-formed (obtained from 8 by
+       the renaming lemma of coq/C18/Transfer.v; no key of such a history is left out by the subset type) *)
+Theorem om_refines_js_raw : forall (V : Type) (ops : list (@op jsval V)), Forall Hash.op_wf ops ->
+  snd (run (istep goja_same goja_norm goja_hash) iinit ops) = snd (run (sstep goja_same goja_norm) sinit ops).
+Proof. exact (Hash.om_refines_js_raw hashTrue hashFalse hashNull hashUndef mh ptr_sym ptr_obj). Qed.
+
 (* the three functions are literally goja's on the underlying value *)
 Theorem wfkey_functions : forall a b : Hash.wfkey,
   Hash.wf_same a b = goja_same (proj1_sig a) (proj1_sig b) /\
@@ -195,6 +201,18 @@ Proof. vm_compute. reflexivity. Qed.
 
 End C18_JS.
 
+(* non-vacuity of 8': -0 / +0 and an imported / a unicode "e-acute" are one key each; with a hash that collides on
+   everything of equal length the chains are exercised *)
+Example om_refines_js_nonvacuous :
+  let h := goja_hash 1 2 3 4 (fun l => N.of_nat (length l)) (fun i => i) (fun i => i) in
+  let ops := [OSet (VNum (M5.NFlt (F64.of_bits 9223372036854775808))) 1; OSet (VStr (M6.SImp [195; 169]%N false)) 2;
+              OSet (VStr (M6.SUni [234]%N)) 3; OGet (VNum (M5.NInt 0)); OHas (VStr (M6.SUni [233]%N));
+              ODel (VStr (M6.SUni [233]%N)); OGet (VStr (M6.SUni [234]%N)); OSize] in
+  Forall Hash.op_wf ops /\
+  snd (run (istep goja_same goja_norm h) iinit ops) =
+    [RUnit; RUnit; RUnit; RVal (Some 1); RBool true; RBool true; RVal (Some 3); RNat 2].
+Proof. split; [repeat constructor|vm_compute; reflexivity]. Qed.
+
 Print Assumptions om_refines.
 Print Assumptions om_size_live.
 Print Assumptions siter_next_some.
@@ -209,6 +227,7 @@ Print Assumptions hash_respects_refuted_noncanonical.
 Print Assumptions hash_respects_refuted_hostwrapper.
 Print Assumptions goja_same_is_svz.
 Print Assumptions om_refines_js.
+Print Assumptions om_refines_js_raw.
 Print Assumptions wfkey_functions.
 Print Assumptions wf_same_equiv.
 Print Assumptions map_iteration_order_js.
